@@ -31,6 +31,7 @@ type staticRef struct {
 	MustNot   []conn           // connections no value can cross
 	May       int              // number of may-connections (run-time check expected)
 	PassCands map[string][]int // passthrough key -> types of every typed neighbour of its component
+	PassIn    map[string][]int // passthrough key -> the types that ENTER its component (typed producers, START)
 }
 
 func (s *Spec) targetInPort(t string) int {
@@ -103,7 +104,7 @@ func (s *Spec) sinksOf(u string, from int, viaPass bool, seen map[string]bool, f
 }
 
 func refStatic(s *Spec) *staticRef {
-	r := &staticRef{PassCands: map[string][]int{}}
+	r := &staticRef{PassCands: map[string][]int{}, PassIn: map[string][]int{}}
 	add := func(kind, at string, from, to int, via bool) {
 		if kind == "field-path" {
 			r.MustNot = append(r.MustNot, conn{kind, at, -1, -1, latMustNot, via})
@@ -150,6 +151,7 @@ func refStatic(s *Spec) *staticRef {
 			continue
 		}
 		set := map[int]bool{}
+		entering := map[int]bool{}
 		comp := map[string]bool{p.Key: true}
 		for changed := true; changed; {
 			changed = false
@@ -184,9 +186,9 @@ func refStatic(s *Spec) *staticRef {
 				if comp[t] && b.InKey == "" && !(comp[c.From] && linked(a, b)) {
 					// what enters the component here
 					if c.From == START {
-						set[s.GI] = true
+						set[s.GI], entering[s.GI] = true, true
 					} else if pt := a.producerType(); pt >= 0 {
-						set[pt] = true
+						set[pt], entering[pt] = true, true
 					}
 				}
 			}
@@ -197,8 +199,34 @@ func refStatic(s *Spec) *staticRef {
 		}
 		sort.Ints(l)
 		r.PassCands[p.Key] = l
+		var li []int
+		for t := range entering {
+			li = append(li, t)
+		}
+		sort.Ints(li)
+		r.PassIn[p.Key] = li
 	}
 	return r
+}
+
+// launders: eino reports the interface type t for the pass-through node k, but no value of an
+// interface type ever enters the node's component: every producer that feeds it is concretely typed,
+// t is only the input type of a successor (or of a branch condition) that happened to be connected
+// first. Treating t as the node's declared type would turn every connection producer ⇒ consumer
+// through the node into "interface upstream, checked at run time" - also those whose two declared
+// types are both concrete and can never fit. The property says such connections are rejected "also
+// when the types are only inferred through pass-through nodes": for the reference the node stays
+// transparent.
+func (r *staticRef) launders(k string, t int) bool {
+	if t < 0 || !isIface(t) || len(r.PassIn[k]) == 0 {
+		return false
+	}
+	for _, e := range r.PassIn[k] {
+		if e == t || isIface(e) {
+			return false
+		}
+	}
+	return true
 }
 
 // concreteMustNot: connections between two typed ends whose upstream type is
